@@ -15,6 +15,7 @@ import (
 	"go/constant"
 	"go/token"
 	"path/filepath"
+	"sort"
 	"strings"
 )
 
@@ -357,6 +358,7 @@ func (t *tr) readerEffect(c *ast.CallExpr, lhs []ast.Expr, define bool, rest fun
 			t.fail(c, "the buffer of a read must be a []byte variable")
 			return "GoUnknown", true
 		}
+		t.storageWrite(c, bid.Name)
 		fn := "io_ReadFull " + rd.coq + " (go_len " + bv.coq + ")"
 		if kind == "read" {
 			fn = "rd_read (Z.to_nat (go_len " + bv.coq + ")) " + rd.coq
@@ -441,6 +443,7 @@ func (t *tr) libEffect(c *ast.CallExpr, lhs []ast.Expr, define bool, rest func()
 			if id, ok := barg.(*ast.Ident); ok {
 				if bv := t.lookup(id.Name); bv != nil && bv.typ == tBytes {
 					v := t.exprAs(c.Args[1], "uint64")
+					t.storageWrite(c, id.Name)
 					t.guard("(8 <=? go_len " + bv.coq + ")")
 					gs := t.takeGuards()
 					return wrapG(gs, "let "+bv.coq+" := (binary_LE_PutUint64 "+bv.coq+" "+v+") in\n"+rest()), true
@@ -582,9 +585,6 @@ func (t *tr) callerSrc(c *ast.CallExpr, fi *funcInfo, recvSrc, ps string) (strin
 			if se, ok := a.(*ast.SliceExpr); ok && se.Low == nil && se.High == nil && !se.Slice3 {
 				a = se.X // buf[:] is buf
 			}
-			if ue, ok := a.(*ast.UnaryExpr); ok && ue.Op == token.AND {
-				a = ue.X
-			}
 			return t.p.src(a) + suffix, true
 		}
 	}
@@ -600,6 +600,7 @@ func (t *tr) callArgs(c *ast.CallExpr, fi *funcInfo, recvSrc string) string {
 		t.fail(c, "call arity")
 		return ""
 	}
+	t.dirtyArgs(c, fi)
 	s := ""
 	for i, ps := range fi.psrcs {
 		found := false
@@ -645,6 +646,26 @@ func (t *tr) bindCall(c *ast.CallExpr, fi *funcInfo, recvSrc string, lhs []ast.E
 	}
 	args := t.callArgs(c, fi, recvSrc)
 	gs := t.takeGuards()
+	mark := ""
+	for i, l := range lhs {
+		if rt := splitTuple(fi.res); i < len(rt) && isSliceT(rt[i]) {
+			mark += t.aliasGuard(c, l, c)
+		}
+	}
+	// the same slice given twice to a callee that writes
+	if len(fi.states) > 0 {
+		seen := map[string]bool{}
+		for _, a := range c.Args {
+			if n := t.baseName(a); n != "" {
+				if v := t.lookup(n); v != nil && isSliceT(v.typ) {
+					if seen[n] {
+						t.fail(c, "the same slice is passed twice to a callee that may write it")
+					}
+					seen[n] = true
+				}
+			}
+		}
+	}
 	resT := splitTuple(fi.res)
 	if fi.res == "" {
 		resT = nil
@@ -698,6 +719,9 @@ func (t *tr) bindCall(c *ast.CallExpr, fi *funcInfo, recvSrc string, lhs []ast.E
 			pat = append(pat, "_")
 			continue
 		}
+		if isSliceT(v.typ) {
+			t.storageWrite(c, want)
+		}
 		pat = append(pat, v.coq)
 	}
 	call := "(" + fi.coq + args + ")"
@@ -717,7 +741,7 @@ func (t *tr) bindCall(c *ast.CallExpr, fi *funcInfo, recvSrc string, lhs []ast.E
 	default:
 		code = "let " + p + " := " + call + " in\n" + rest()
 	}
-	return wrapG(gs, code)
+	return wrapG(gs, mark+code)
 }
 
 // ---------------------------------------------------------------- loops on fuel
@@ -890,4 +914,513 @@ func sortStrings(a []string) {
 			a[j], a[j-1] = a[j-1], a[j]
 		}
 	}
+}
+
+// ---------------------------------------------------------------- aliasing
+
+// Go slices share their backing array: after `b := buf[:]`, `c := b`,
+// `b := append(a, x)` or `x := f(buf)` two names can denote the same storage,
+// and a write through one is seen through the other.  The definitions emitted
+// here bind VALUES, so such a binding is only translated when it cannot be
+// observed: the source name is never mentioned again, or the new name is never
+// mentioned again, or neither of the two is written from there on (that last
+// case is marked `(* alias-review *)` in the output).  Everything else makes
+// the definition go_unknown.  Arrays are values in Go (`c := arr` copies): an
+// array variable is tracked as such, `arr[:]` aliases it like a slice.
+
+func isSliceT(ty string) bool {
+	switch ty {
+	case tBytes, tStrs, "[]rune", "[]goerr", "[][]byte", "buffer":
+		return true
+	}
+	return false
+}
+
+// baseName: the variable (or declared state field) an expression is a view of.
+func (t *tr) baseName(e ast.Expr) string {
+	for {
+		switch x := e.(type) {
+		case *ast.ParenExpr:
+			e = x.X
+		case *ast.SliceExpr:
+			e = x.X
+		case *ast.IndexExpr:
+			e = x.X
+		case *ast.StarExpr:
+			e = x.X
+		case *ast.UnaryExpr:
+			if x.Op != token.AND {
+				return ""
+			}
+			e = x.X
+		case *ast.Ident:
+			return x.Name
+		case *ast.SelectorExpr:
+			src := t.p.src(x)
+			if _, ok := t.psrc[src]; ok {
+				return src
+			}
+			return ""
+		default:
+			return ""
+		}
+	}
+}
+
+// aliasSources: the names whose storage the value of e may share.
+func (t *tr) aliasSources(e ast.Expr) []string {
+	for {
+		p, ok := e.(*ast.ParenExpr)
+		if !ok {
+			break
+		}
+		e = p.X
+	}
+	isSliceVar := func(n string, arraysToo bool) bool {
+		v := t.lookup(n)
+		if v == nil {
+			if ps, ok := t.psrc[n]; ok {
+				return isSliceT(normT(ps.typ))
+			}
+			return false
+		}
+		return isSliceT(v.typ) && (arraysToo || !v.isArray)
+	}
+	switch x := e.(type) {
+	case *ast.Ident:
+		if isSliceVar(x.Name, false) {
+			return []string{x.Name}
+		}
+	case *ast.SelectorExpr:
+		if n := t.baseName(x); n != "" && isSliceVar(n, false) {
+			return []string{n}
+		}
+	case *ast.SliceExpr:
+		if n := t.baseName(x.X); n != "" && isSliceVar(n, true) {
+			return []string{n}
+		}
+	case *ast.CallExpr:
+		if id, ok := x.Fun.(*ast.Ident); ok && t.lookup(id.Name) == nil {
+			switch id.Name {
+			case "append":
+				if len(x.Args) > 0 {
+					if n := t.baseName(x.Args[0]); n != "" && isSliceVar(n, true) {
+						return []string{n}
+					}
+				}
+				return nil
+			case "len", "cap", "string", "make", "new":
+				return nil
+			}
+			if convTypes[id.Name] {
+				return nil
+			}
+		}
+		if _, ok := x.Fun.(*ast.ArrayType); ok {
+			return nil // []byte(s) copies
+		}
+		if sel, ok := x.Fun.(*ast.SelectorExpr); ok {
+			if sel.Sel.Name == "Bytes" && len(x.Args) == 0 {
+				if n := t.baseName(sel.X); n != "" && isSliceVar(n, true) {
+					return []string{n}
+				}
+			}
+			if ip, ok := t.importPath(sel.X); ok {
+				if _, ok := libFuncs[ip+"."+sel.Sel.Name]; ok {
+					return nil // the modelled library functions return fresh values (or strings)
+				}
+			}
+		}
+		// any other call: its result may be (a view of) any slice it was given
+		var out []string
+		for _, a := range x.Args {
+			if n := t.baseName(a); n != "" && isSliceVar(n, true) {
+				out = append(out, n)
+			}
+		}
+		return out
+	}
+	return nil
+}
+
+type aliasUse struct{ mentioned, written bool }
+
+// usesAfter: how name is used after stmt (and, when stmt is inside a loop,
+// anywhere in that loop outside stmt itself).
+func (t *tr) usesAfter(stmt ast.Node, name string) aliasUse {
+	if t.isState(name) {
+		// a state output is handed back to the caller when the function ends
+		u := t.usesAfter0(stmt, name)
+		u.mentioned = true
+		return u
+	}
+	return t.usesAfter0(stmt, name)
+}
+
+func (t *tr) usesAfter0(stmt ast.Node, name string) aliasUse {
+	loops := t.loopsAround(stmt)
+	relevant := func(n ast.Node) bool {
+		if n.Pos() >= stmt.Pos() && n.End() <= stmt.End() {
+			return false
+		}
+		if n.Pos() >= stmt.End() {
+			return true
+		}
+		for _, l := range loops {
+			if n.Pos() >= l.Pos() && n.End() <= l.End() {
+				return true
+			}
+		}
+		return false
+	}
+	return t.scanUses(name, relevant)
+}
+
+func (t *tr) loopsAround(stmt ast.Node) []ast.Node {
+	var loops []ast.Node
+	ast.Inspect(t.fd.Body, func(n ast.Node) bool {
+		switch n.(type) {
+		case *ast.ForStmt, *ast.RangeStmt:
+			if n.Pos() <= stmt.Pos() && stmt.End() <= n.End() {
+				loops = append(loops, n)
+			}
+		}
+		return true
+	})
+	return loops
+}
+
+// scanUses: is name mentioned / possibly written in the relevant nodes?
+func (t *tr) scanUses(name string, relevant func(ast.Node) bool) aliasUse {
+	var u aliasUse
+	is := func(e ast.Expr) bool { return e != nil && t.baseName(e) == name }
+	pureCall := func(c *ast.CallExpr) bool {
+		fsrc := t.p.src(c.Fun)
+		if _, ok := t.cfg.externs[fsrc]; ok {
+			return true // an abstract function of its arguments
+		}
+		if _, ok := t.cfg.appendTo[fsrc]; ok {
+			return true // copies its argument into the accumulator
+		}
+		if key, ok := t.cfg.libAlias[fsrc]; ok {
+			return !strings.Contains(key, ".Put")
+		}
+		if fi, _ := t.calleeOf(c); fi != nil {
+			return len(fi.states) == 0
+		}
+		switch f := c.Fun.(type) {
+		case *ast.ArrayType:
+			return true
+		case *ast.Ident:
+			switch f.Name {
+			case "len", "cap", "string":
+				return true
+			}
+			return convTypes[f.Name]
+		case *ast.SelectorExpr:
+			if ip, ok := t.importPath(f.X); ok {
+				if _, ok := libFuncs[ip+"."+f.Sel.Name]; ok {
+					return true
+				}
+				return false
+			}
+			if s2, ok := f.X.(*ast.SelectorExpr); ok {
+				if ip, ok := t.importPath(s2.X); ok {
+					if _, ok := libChains[ip+"."+s2.Sel.Name+"."+f.Sel.Name]; ok {
+						return !strings.HasPrefix(f.Sel.Name, "Put")
+					}
+				}
+			}
+			if _, kind, ok := t.objectOf(f.X); ok && kind == "lexer" {
+				return true
+			}
+		}
+		return false
+	}
+	ast.Inspect(t.fd.Body, func(n ast.Node) bool {
+		if n == nil {
+			return true
+		}
+		switch x := n.(type) {
+		case *ast.Ident:
+			if x.Name == name && relevant(x) {
+				u.mentioned = true
+			}
+		case *ast.SelectorExpr:
+			if t.p.src(x) == name && relevant(x) {
+				u.mentioned = true
+			}
+		case *ast.AssignStmt:
+			if relevant(x) {
+				for _, l := range x.Lhs {
+					if is(l) {
+						u.written = true
+					}
+				}
+			}
+		case *ast.IncDecStmt:
+			if relevant(x) && is(x.X) {
+				u.written = true
+			}
+		case *ast.UnaryExpr:
+			if x.Op == token.AND && relevant(x) && is(x.X) {
+				u.written = true
+			}
+		case *ast.CallExpr:
+			if relevant(x) {
+				if id, ok := x.Fun.(*ast.Ident); ok && (id.Name == "append" || id.Name == "copy") && t.lookup(id.Name) == nil {
+					if len(x.Args) > 0 && is(x.Args[0]) {
+						u.written = true
+					}
+				} else if !pureCall(x) {
+					for _, a := range x.Args {
+						if is(a) {
+							u.written = true
+						}
+					}
+					if sel, ok := x.Fun.(*ast.SelectorExpr); ok && is(sel.X) {
+						u.written = true // a method of the value itself
+					}
+				}
+			}
+		}
+		return true
+	})
+	return u
+}
+
+// aliasGuard is called for every binding `target = value`: it fails the
+// translation when the binding creates an alias that could be observed, and
+// returns the review marker when it accepts one between two live names.
+func (t *tr) aliasGuard(stmt ast.Node, target ast.Expr, value ast.Expr) string {
+	y := t.baseName(target)
+	if id, ok := target.(*ast.Ident); ok {
+		y = id.Name
+	}
+	if y == "" || y == "_" {
+		return ""
+	}
+	mark := ""
+	for _, x := range t.aliasSources(value) {
+		if x == y {
+			continue // buf = buf[:n]: still one name
+		}
+		if r := t.rootOf(x); r != "" {
+			t.roots[y] = r
+		}
+		gx, ok := t.group[x]
+		if !ok {
+			gx = len(t.group) + 1
+			t.group[x] = gx
+		}
+		if gy, ok := t.group[y]; ok && gy != gx {
+			for m, gm := range t.group {
+				if gm == gy {
+					t.group[m] = gx
+				}
+			}
+		}
+		t.group[y] = gx
+		ux, uy := t.usesAfter(stmt, x), t.usesAfter(stmt, y)
+		switch {
+		case !ux.mentioned || !uy.mentioned:
+			// only one of the two names lives on
+		case !ux.written && !uy.written:
+			mark = "(* alias-review: " + y + " shares the storage of " + x + "; neither is written afterwards *)\n"
+		default:
+			t.fail(stmt, "aliasing is not modelled: "+y+" shares the storage of "+x+" and one of them is written, passed to a callee that may write it, or appended to afterwards")
+		}
+	}
+	return mark
+}
+
+func unparen(e ast.Expr) ast.Expr {
+	for {
+		p, ok := e.(*ast.ParenExpr)
+		if !ok {
+			return e
+		}
+		e = p.X
+	}
+}
+
+// rootOf: the parameter whose storage (visible to the caller) name may share.
+func (t *tr) rootOf(name string) string {
+	if r, ok := t.roots[name]; ok {
+		return r
+	}
+	if t.isParam[name] {
+		if v := t.lookup(name); v != nil {
+			if isSliceT(v.typ) && !v.isArray {
+				return name
+			}
+		} else if ps, ok := t.psrc[name]; ok && isSliceT(normT(ps.typ)) {
+			return name
+		}
+	}
+	return ""
+}
+
+// sharers: the other names that may denote the storage of name and are still
+// mentioned after node n.  Second line of defence behind aliasGuard: it is
+// asked where a write is actually translated, so it does not depend on the
+// guard recognising every writing statement in advance.
+func (t *tr) sharers(n ast.Node, name string) []string {
+	g, ok := t.group[name]
+	if !ok {
+		return nil
+	}
+	var out []string
+	for m, gm := range t.group {
+		if gm == g && m != name && t.usesAfter(n, m).mentioned {
+			out = append(out, m)
+		}
+	}
+	sort.Strings(out)
+	return out
+}
+
+// storageWrite: the elements of slice variable name are written in place.
+// That is visible to the caller when the storage is a parameter's, and is only
+// modelled when that parameter itself is a declared state output.
+func (t *tr) storageWrite(n ast.Node, name string) {
+	if sh := t.sharers(n, name); len(sh) > 0 {
+		t.fail(n, "a write into "+name+", whose storage is shared with "+strings.Join(sh, ", ")+" (used afterwards)")
+	}
+	r := t.rootOf(name)
+	if r == "" {
+		return
+	}
+	if t.isState(r) {
+		if r != name {
+			t.fail(n, "a write into "+name+" is a write into the storage of the state output "+r+", which is not modelled")
+		}
+		return
+	}
+	// Not handed back as a state: the results of this function are still exact,
+	// but the caller's slice has changed under it.  Callers are checked: what
+	// they pass here must not be looked at again (dirtyArgs).
+	if isSimpleIdent(r) {
+		t.self.dirty[r] = true
+	} else {
+		t.fail(n, "a write into the storage of "+r+", which is not a declared state output")
+	}
+}
+
+// dirtyArgs: the callee writes into the storage of some slice parameters
+// without handing them back; the variables passed there must be dead after the
+// call (their contents are no longer what this translation thinks).
+func (t *tr) dirtyArgs(c *ast.CallExpr, fi *funcInfo) {
+	for j, pn := range fi.sigN {
+		if !fi.dirty[pn] || j >= len(c.Args) {
+			continue
+		}
+		x := t.baseName(c.Args[j])
+		if x == "" {
+			continue // nil, make(...), a call result: nobody else can look at it
+		}
+		names := append([]string{x}, t.sharers(c, x)...)
+		if t.usesAfter(c, x).mentioned {
+			t.fail(c, "the callee writes into the storage of "+x+" (parameter "+pn+"), and "+x+" is used afterwards")
+		} else if len(names) > 1 {
+			t.fail(c, "the callee writes into the storage of "+x+" (parameter "+pn+"), shared with "+strings.Join(names[1:], ", ")+" (used afterwards)")
+		}
+		if r := t.rootOf(x); r != "" {
+			t.storageWrite(c, x) // and it is this function's parameter in turn
+		}
+	}
+}
+
+// appendGuard: append(x', v...) may write into the spare capacity of the
+// storage of x.  That is invisible only when nothing else can look there:
+// x = append(x..., v) keeps one name; otherwise x must not be appended to or
+// written again (whole x) or not be used at all (x' a part of x) afterwards.
+func (t *tr) appendGuard(c *ast.CallExpr) {
+	x := t.baseName(c.Args[0])
+	if x == "" {
+		return
+	}
+	if v := t.lookup(x); v != nil {
+		if !isSliceT(v.typ) {
+			return
+		}
+	} else if ps, ok := t.psrc[x]; !ok || !isSliceT(normT(ps.typ)) {
+		return
+	}
+	t.storageWrite(c, x)
+	if t.appendSelf[c] {
+		return
+	}
+	if len(t.loopsAround(c)) > 0 {
+		t.fail(c, "append to "+x+" in a loop, bound to another name: the results share storage")
+		return
+	}
+	_, sub := unparen(c.Args[0]).(*ast.SliceExpr)
+	u := t.usesAfter(c, x)
+	if sub && u.mentioned {
+		t.fail(c, "append to a part of "+x+" may overwrite the rest of "+x+", which is used afterwards")
+	} else if !sub && u.written {
+		t.fail(c, "append to "+x+" bound to another name, and "+x+" is appended to or written again: the results share storage")
+	}
+}
+
+// effectTargets: the variables and states a call may rebind in this
+// translation (an over-approximation; threading a value that did not change
+// through a join or a loop is harmless, dropping one that did is not).
+func (t *tr) effectTargets(c *ast.CallExpr) []string {
+	var out []string
+	args := func() {
+		for _, a := range c.Args {
+			if n := t.baseName(a); n != "" {
+				out = append(out, n)
+			}
+		}
+	}
+	fsrc := t.p.src(c.Fun)
+	if _, ok := t.cfg.externs[fsrc]; ok {
+		return nil
+	}
+	if key, ok := t.cfg.libAlias[fsrc]; ok {
+		if strings.Contains(key, ".Put") {
+			args()
+		}
+		return out
+	}
+	if fi, recvSrc := t.calleeOf(c); fi != nil {
+		for _, st := range fi.states {
+			if want, ok := t.callerSrc(c, fi, recvSrc, st); ok {
+				out = append(out, want)
+			}
+		}
+		return out
+	}
+	switch f := c.Fun.(type) {
+	case *ast.Ident:
+		return nil // builtins and conversions (append, len, ...) rebind nothing by themselves
+	case *ast.SelectorExpr:
+		if ip, ok := t.importPath(f.X); ok {
+			if _, ok := libFuncs[ip+"."+f.Sel.Name]; ok {
+				return nil
+			}
+			if ip == "io" {
+				out = append(out, t.states...)
+				args()
+			}
+			return out
+		}
+		if s2, ok := f.X.(*ast.SelectorExpr); ok {
+			if _, ok := t.importPath(s2.X); ok {
+				if strings.HasPrefix(f.Sel.Name, "Put") {
+					args()
+				}
+				return out
+			}
+		}
+		if _, _, ok := t.objectOf(f.X); ok {
+			out = append(out, t.states...)
+			args()
+			return out
+		}
+	}
+	return nil
 }
